@@ -105,6 +105,8 @@ class SimLoop(asyncio.BaseEventLoop):
         self.world.stats["executor_jobs"] += 1
 
         def run():
+            # the job starts (and does all its work) at this instant and is reported done a little later: a worker thread takes time,
+            # and whatever the job read at its start (the clock, shared state) is already old when its result arrives
             if fut.cancelled():
                 return
             try:
@@ -112,9 +114,10 @@ class SimLoop(asyncio.BaseEventLoop):
             except BaseException as e:  # noqa: BLE001
                 if isinstance(e, (KeyboardInterrupt, SystemExit)):
                     raise
-                fut.set_exception(e)
+                exc = e
+                self.schedule_ext(self.draw_latency_ns() // 4, lambda: None if fut.cancelled() else fut.set_exception(exc), "exec.done")
             else:
-                fut.set_result(res)
+                self.schedule_ext(self.draw_latency_ns() // 4, lambda: None if fut.cancelled() else fut.set_result(res), "exec.done")
 
         self.schedule_ext(self.draw_latency_ns() // 4, run, "exec")
         if executor is not None and hasattr(executor, "shutdown"):
